@@ -91,6 +91,16 @@ func runC05(w *core.World, r *core.Report) {
 			r.Bad("R5", "RELOAD handler "+core.QName(h)+": sequence", h.Pos(), fmt.Sprintf("invoker calls=%d Update calls=%d Page.Map calls=%d (each must be present)", len(ic), len(ups), len(maps)))
 		} else {
 			isSucc := isSuccessReturnPred(h)
+			{
+				// the external code is asked again on every RELOAD that succeeds
+				cut := core.NewCut()
+				for _, c := range ic {
+					cut.AddInstr(c.(ssa.Instruction))
+				}
+				in, path := core.Reach(core.Entry(h), isSucc, cut)
+				r.Check(in == nil, "R5", "RELOAD handler "+core.QName(h)+": every successful RELOAD calls the external code", h.Pos(), "every success return passes the invoker",
+					"a RELOAD can report success without asking the external code again (skipped on some condition): the cache and the page keep the stale value: "+w.PathString(path))
+			}
 			for _, c := range ic {
 				for _, step := range []struct {
 					name  string
@@ -258,8 +268,8 @@ func runC05(w *core.World, r *core.Report) {
 				if refs := v.Referrers(); refs != nil {
 					for _, u := range *refs {
 						if bo, ok := u.(*ssa.BinOp); ok {
-							if _, op, k, ok := core.CmpConst(bo); ok && k == 0 && (op == token.EQL || op == token.NEQ) {
-								failEdges = append(failEdges, core.EdgesWhere(bo, op == token.EQL)...)
+							if _, op, k, ok := core.CmpConst(bo); ok && k == 0 && (op == token.EQL || op == token.NEQ || op == token.LEQ || op == token.GTR) {
+								failEdges = append(failEdges, core.EdgesWhere(bo, op == token.EQL || op == token.LEQ)...)
 							}
 						}
 					}
